@@ -220,6 +220,9 @@ def _run_case(ctx, case, dcf):
             kw = {}
             ctx.cls("default-config-file-not-usable")
     p = P.build(recipe, **kw)
+    # every parser also gets a class-typed argument whose declared default is a spec *with* init_args (a declared default like any other)
+    FXP = "vf.gen.fixtures."
+    p.add_argument("--zcls", type=fixtures.Base, default={"class_path": FXP + "SubA", "init_args": {"p": 5, "q": "dq"}})
     w = Watch(ctx, p, case)
     obj = P.as_object(copy.deepcopy(case["values"]), case["subcommand"])
     shapes = P.all_shapes(recipe)
@@ -252,6 +255,12 @@ def _run_case(ctx, case, dcf):
             bad_ns = None
         if bad_ns is not None and name == "foreign-key-last":
             w.call(f"parse_object(Namespace,{name})", p.parse_object, bad_ns)
+    # another class than the default's, whose signature lacks the default's init_args - with and without the defaults merged in
+    for dflt in (True, False):
+        w.call(f"parse_object(class change of an argument with a default spec, defaults={dflt})",
+               lambda o, dflt=dflt: p.parse_object(o, defaults=dflt), dict(copy.deepcopy(obj), zcls={"class_path": FXP + "SubB"}))
+        w.call(f"parse_string(class change of an argument with a default spec, defaults={dflt})",
+               lambda t, dflt=dflt: p.parse_string(t, defaults=dflt), json.dumps({"zcls": {"class_path": FXP + "SubB", "init_args": {"r": [0.5]}}}))
     w.call("get_defaults", p.get_defaults)
     # the caller owns what get_defaults() returned: editing it must not reach the parser (checked on a parser of its own, so
     # that a leak cannot disturb the other observations of this case)
